@@ -684,8 +684,14 @@ class Interp(ExprMixin):
             elif self.frame.try_depth > 0 or self.ctx.want_exc:
                 if self.ctx.branch(self.ctx.fresh(f"raises_{exc_name}", z3.BoolSort())):
                     raise PyRaise(SExc(cls_exc), line)
+        kept = set()
+        for cond, paths in getattr(c, "frame_when", {}).items():
+            # conditional frame (verified on the callee): when the condition holds at entry, these fields are not assigned at all
+            if self.ctx.entails_pc(self.spec_eval(cond, dict(env), None, c.namespace)):
+                kept |= set(paths)
         for path in c.modifies:
-            self.havoc_path(path, env)
+            if path not in kept:
+                self.havoc_path(path, env)
         result = None
         if c.returns is not None:
             rty = self.reg.type(c.returns)
